@@ -36,6 +36,13 @@ CORE = ("matmat", "rmatmat", "to_dense", "transpose", "adjoint", "add", "scale",
         "roundtrip", "getitem", "diag", "trace", "solve", "eig_alg", "inv_alg", "cg", "gmres", "lanczos", "arnoldi", "hutch")
 
 
+def O_dt(t):
+    """dtype of the first leaf of a tree"""
+    while "dt" not in t:
+        t = (t.get("ms") or [t.get("a")])[0]
+    return t["dt"]
+
+
 def findings(c01):
     out = []
     # ---- registry_first_instance_decides: the witness of coq/C18_Registry.v (history_dependent_refuted), replayed in fresh interpreters
@@ -270,7 +277,10 @@ def run(ctx):
     t0 = time.time()
     # ---------------- alias sweep: composites with an argument-returning child in first / middle / last position ----------------
     sweep, sweep_rej = [], 0
-    for t in P.alias_prone_trees(rnd) + P.reordered_slice_trees(rnd):
+    reordered = P.reordered_slice_trees(rnd)
+    if ctx.tier != "thorough":      # quick tier: every float64 one, a third of the float32 / complex128 ones
+        reordered = [t for t in reordered if T.kinds_of(t) and (O_dt(t) == "float64" or rnd.random() < 0.33)]
+    for t in P.alias_prone_trees(rnd) + reordered:
         try:
             e = P.entry_of(t)
             if not np.array_equal(e["base"].astype(np.complex128), T.dense(t)):
@@ -285,6 +295,8 @@ def run(ctx):
         for layout in ("C", "F", "strided"):
             for name in ("matmat", "matvec", "rmatmat", "to_dense", "diag", "roundtrip", "to_none", "annotate"):
                 if name in ("to_dense", "diag", "roundtrip", "to_none", "annotate") and layout != "C":
+                    continue
+                if e["tree"]["k"] == "Sliced" and name in ("to_dense", "diag", "annotate"):
                     continue
                 r = S.run_sequence([name], pool, rnd, force=e, layout=layout)
                 sweep_runs += 1
